@@ -27,3 +27,23 @@ Fixpoint ref_session (left : list N) (xs : list exchange) : list SS.verdict :=
       | _ => []                      (* the connection has ended *)
       end
   end.
+
+(* ---- several connections of one channel ----
+   An exchange may now also see the connection's stream END (EOF / I/O error) instead of merely falling
+   silent; the connection is then over.  Every connection is cut on its own: nothing received on an
+   earlier connection - in particular not the beginning of a frame it died in - is part of it. *)
+Definition exchange_fi := (CT.request * N * list N * F.fin)%type.
+
+Fixpoint ref_session_fi (left : list N) (xs : list exchange_fi) : list SS.verdict :=
+  match xs with
+  | [] => []
+  | (r, t, s, fi) :: rest =>
+      SS.ref_client_result r t (left ++ s) fi ::
+      match fi, snd (Framing.ref_frames (left ++ s) fi) with
+      | F.FinPending, F.EndPending => ref_session_fi (Framing.mbap_tail (left ++ s)) rest
+      | _, _ => []
+      end
+  end.
+
+Definition ref_connections (conns : list (list exchange_fi)) : list (list SS.verdict) :=
+  map (ref_session_fi []) conns.
